@@ -67,13 +67,14 @@ def kvSpec : Spec (List (String × String)) where
       (s, if ks.isEmpty then "-" else "+".intercalate ks)
     | _ => (s, "?")
 
-/-- key manager ids: import id (refused when taken) | get id -/
+/-- key manager ids: import id (refused when taken) | get id; an optional third word names the key manager instance that
+    served the operation (two instances over one store share ONE id space: the word does not enter the specification) -/
 def kmsSpec : Spec (List String) where
   init := []
   step s op :=
     match op.splitOn " " with
-    | ["import", id] => if s.contains id then (s, "err") else (id :: s, "ok")
-    | ["get", id] => (s, if s.contains id then "ok" else "err")
+    | ["import", id] | ["import", id, _] => if s.contains id then (s, "err") else (id :: s, "ok")
+    | ["get", id] | ["get", id, _] => (s, if s.contains id then "ok" else "err")
     | _ => (s, "?")
 
 /-- session manager, one user; the state is the number of the live token. `open#n` (refused while open) makes token n
